@@ -35,11 +35,16 @@ func evalC01(os openSet, rec *hx.Rec) error {
 	if err != nil {
 		return err
 	}
+	runNoise(os.Noise, 3, true)
 	trp := common.NewTranscript(os.Label)
 	var proof *multiproof.MultiProof
 	var perr error
 	if e := hx.Try(func() { proof, perr = multiproof.CreateMultiProof(trp, cfg, b.Cs, b.fs, b.zs) }); e != nil {
 		return fmt.Errorf("CreateMultiProof: %w", e)
+	}
+	runNoise(os.Noise>>1, 2, true) // and between proving and verifying
+	if os.Noise != 0 {
+		rec.Label("after_history_noise")
 	}
 	if perr != nil || proof == nil {
 		return fmt.Errorf("CreateMultiProof returned error %v for an honest opening set", perr)
@@ -196,6 +201,7 @@ func evalC03(c c03Case, rec *hx.Rec) error {
 	if e := hx.Try(func() { runPrefix(c.Prefix) }); e != nil {
 		return fmt.Errorf("prefix calls: %w", e)
 	}
+	runNoise(c.Set.Noise, 3, true)
 	if err := prove("first run", b); err != nil {
 		return err
 	}
